@@ -47,6 +47,14 @@ CLAIMED = {
    technique="C08 enumeration over tagged test vectors: every placement of up to two tags (incl. two on one sample) on a 6-sample vector, crossed with all drip-feed schedules; absolute-index tag multiset oracle, plus 'tags of a delivered sample never change'",
    text="Tags are converted to absolute output indices the first time their sample is seen; after the flush the multiset must equal the specification (identity, shifted by delay, index/decimation, after-skip), no tag may appear at or beyond the window length, on pre-existing samples, or change on a sample that was already delivered.",
    note="Trusted: harness output port bookkeeping; tag specs in the subject registry.", ref="DESIGN.md 3-E3, 5-C12"),
+ "C16": dict(level="model_checking", engine="envx",
+   technique="bounded-exhaustive enumeration of downstream consumption schedules (release k slots / nothing, then work()) around the real VectorSource, FileSource and SigMFSource on capacity-2 streams, for data lengths 0-5 x repeat {0,1,2,3,infinite}; explicit-state enumeration of all call sequences on the Repeat API to depth 8 against a reference counter",
+   text="Every consumption schedule up to the horizon, from four ring offsets / fill levels, must yield exactly data x repeat, EOF exactly when everything has been emitted and never for an infinite repeat, marker tags once per repetition on its first sample, and no panic; every sequence of again()/done()/count() calls up to depth 8 from finite(0..3) and infinite() must agree with a reference counter and never over/underflow.",
+   note="Trusted: harness output port, reference counter, temp files for FileSource/SigMF recording. A runner never calls work() after EOF; the search does not either.", ref="DESIGN.md 3-E3, 5-C16"),
+ "C19": dict(level="model_checking", engine="envx",
+   technique="C08-style enumeration on blocks defined in the harness with #[derive(Block)]: sync 1x1, 2x1, 1x2, 3x2, 2x3, sync_tag 1x1 and 3x3, default/into fields, a new()-only block with copy and non-copy outputs; per-call accounting oracle; generated eof() over all 4^n input states",
+   text="For every drip-feed schedule up to the horizon each call must process exactly min(shortest input, smallest output space) steps on every stream and answer Again, or move nothing and wait (need 1) on a stream that really is an empty input or a full output; outputs equal the per-sample function, tags of the first input follow, new() returns read ends in declaration order, and the generated eof() is true iff all inputs are gone and drained (all 4+16+64 combinations).",
+   note="Trusted: as C08. The derive macro is exercised through blocks compiled into the harness, so a macro change is picked up by the rebuild.", ref="DESIGN.md 3-E3, 5-C19"),
 }
 
 ENGINES = [
